@@ -45,6 +45,7 @@ type RunOutcome struct {
 	History   []Event
 	Harness   string // non-empty: harness failure (not a violation)
 	Streams   map[string]uint64
+	KnownHits map[string]int
 }
 
 var runCounter atomic.Uint64
@@ -119,6 +120,7 @@ func RunOne(t *testing.T, prop *Property, seed uint64, ch *Chooser, tier string,
 	out.Viol = env.Viol
 	out.TraceHash = env.TraceHash()
 	out.Streams = env.StreamHashes()
+	out.KnownHits = env.KnownHits
 	out.Stats = env.Stats
 	for k := range env.States {
 		out.States = append(out.States, k)
